@@ -174,4 +174,84 @@ RangeOK == LET e == Expected(S, p) r == R IN
            IF e = {} THEN (r.left = 0 \/ r.left > r.right) ELSE r.left = Min(e) /\ r.right = Max(e)
 NoOOB == ~R.oob
 Inv == RangeOK /\ NoOOB
+
+-----------------------------------------------------------------------------
+(* locate (locateBucket + in-bucket scan) and extract, transcribed the same way  *)
+
+\* strcmp(text + pos, q): 0 equal, 1 text greater, 2 text less (unsigned bytes; q is NUL terminated)
+RECURSIVE StrCmp(_, _, _, _)
+StrCmp(text, pos, q, k) ==
+  LET c == Rd(text, pos + k - 1)  d == IF k <= Len(q) THEN q[k] ELSE 0 IN
+  IF c = OOB THEN 2
+  ELSE IF c # d THEN (IF c > d THEN 1 ELSE 2)
+  ELSE IF c = 0 THEN 0 ELSE StrCmp(text, pos, q, k + 1)
+
+RECURSIVE LB(_, _, _, _, _, _)
+\* locateBucket: returns [found, bucket]
+LB(L, q, left, right, center, cmp) ==
+  IF left > right THEN [found |-> FALSE, bucket |-> IF cmp = 2 THEN center ELSE center - 1]
+  ELSE LET c == (left + right) \div 2
+           r == StrCmp(L.text, L.bl[c], q, 1) IN
+       IF r = 1 THEN LB(L, q, left, c - 1, c, r)
+       ELSE IF r = 2 THEN LB(L, q, c + 1, right, c, r)
+       ELSE [found |-> TRUE, bucket |-> c]
+
+\* longestCommonPrefix(decoded + shared, str + shared, decLen - shared + 1, &shared): the decoded string is
+\* compared including its terminator; returns [cmp, shared, qoob] (qoob: the query was read past its NUL)
+LCPq(dec, q, shared) ==
+  LET n == Len(dec) - shared + 1
+      D(i) == IF shared + i <= Len(dec) THEN dec[shared + i] ELSE 0
+      Q(i) == IF shared + i <= Len(q) THEN q[shared + i] ELSE 0
+      Df == {i \in 1..n : D(i) # Q(i)}
+      stop == IF Df = {} THEN n ELSE Min(Df)
+  IN  [cmp |-> IF Df = {} THEN 0 ELSE IF D(Min(Df)) > Q(Min(Df)) THEN 1 ELSE 2,
+       shared |-> IF Df = {} THEN shared + n ELSE shared + Min(Df) - 1,
+       qoob |-> shared + stop > Len(q) + 1]
+
+RECURSIVE Scan(_, _, _, _, _, _, _, _, _)
+\* the loop `for (i = 2; i < scanneable; i++)` of locate; returns [id, oob]
+Scan(text, ptr, dec, q, scanneable, i, sharedCurr, cmp, oob) ==
+  IF i >= scanneable THEN [id |-> 0, oob |-> oob]
+  ELSE LET vb == VB(text, ptr) IN
+       IF vb.v < sharedCurr THEN [id |-> 0, oob |-> oob \/ vb.oob]
+       ELSE LET d == DecodeNext(text, ptr + vb.used, vb.v, dec)
+                r == IF vb.v = sharedCurr THEN LCPq(d.dec, q, sharedCurr) ELSE [cmp |-> cmp, shared |-> sharedCurr, qoob |-> FALSE]
+                o2 == oob \/ vb.oob \/ d.oob \/ r.qoob IN
+            IF r.cmp = 0 THEN [id |-> i + 1, oob |-> o2]
+            ELSE IF r.cmp = 1 THEN [id |-> 0, oob |-> o2]
+            ELSE Scan(text, d.ptr, d.dec, q, scanneable, i + 1, r.shared, r.cmp, o2)
+
+Locate(SS, bsz, q) ==
+  LET L == Layout(SS, bsz)  n == Len(SS)  buckets == Len(L.bl)
+      lb == LB(L, q, 1, buckets, 0, 0) IN
+  IF lb.found THEN [id |-> (lb.bucket - 1) * bsz + 1, oob |-> FALSE]
+  ELSE IF lb.bucket = 0 THEN [id |-> 0, oob |-> FALSE]
+  ELSE LET h == Header(L, lb.bucket)
+           sc == Scanneable(lb.bucket, buckets, n, bsz) IN
+       IF sc <= 1 THEN [id |-> 0, oob |-> h.oob]
+       ELSE LET vb == VB(L.text, h.ptr)
+                d == DecodeNext(L.text, h.ptr + vb.used, vb.v, h.dec)
+                r == LCPq(d.dec, q, 0)
+                o == h.oob \/ vb.oob \/ d.oob \/ r.qoob IN
+            IF r.cmp = 0 THEN [id |-> (lb.bucket - 1) * bsz + 2, oob |-> o]
+            ELSE LET sres == Scan(L.text, d.ptr, d.dec, q, sc, 2, r.shared, r.cmp, o) IN
+                 [id |-> IF sres.id = 0 THEN 0 ELSE (lb.bucket - 1) * bsz + sres.id, oob |-> sres.oob]
+
+RECURSIVE Walk(_, _, _, _, _)
+Walk(text, ptr, dec, k, oob) == IF k = 0 THEN [s |-> dec, oob |-> oob]
+                                ELSE LET vb == VB(text, ptr)
+                                         d == DecodeNext(text, ptr + vb.used, vb.v, dec)
+                                     IN  Walk(text, d.ptr, d.dec, k - 1, oob \/ vb.oob \/ d.oob)
+Extract(SS, bsz, id) ==
+  LET L == Layout(SS, bsz)
+      h == Header(L, 1 + ((id - 1) \div bsz)) IN
+  Walk(L.text, h.ptr, h.dec, (id - 1) % bsz, h.oob)
+
+\* C01 / C02 / C03 for the plain front-coding kind: locate is the rank or 0, extract is the i-th string
+LocateOK  == LET r == Locate(S, b, p)
+                 idx == {i \in 1..Len(S) : S[i] = p} IN
+             /\ ~r.oob
+             /\ r.id = (IF idx = {} THEN 0 ELSE Min(idx))
+ExtractOK == \A i \in 1..Len(S) : LET e == Extract(S, b, i) IN ~e.oob /\ e.s = S[i]
+Inv2 == Inv /\ LocateOK /\ ExtractOK
 =============================================================================
